@@ -131,6 +131,15 @@ def build_pool():
     P += [TM1, TM2, TM3, Vec(TM1), Struct('STM2', [u8, TM2])]
     # handles in containers
     P += [Vec(hd), Opt(hd), Var(hd, u8), Struct('SH', [u8, hd, hf, s8]), Tup(hd, hd)]
+    # handles of every policy as table entries (their references are sized pessimistically, so the entry is padded), and
+    # a handle-bearing table nested in an entry of another table (padding inside padding)
+    TH2 = Table('TH2', 24, [(0, True, h16), (1, True, hf), (2, True, Vec(hf)), (3, True, Struct('SH2', [u8, h16]))])
+    THN = Table('THN', 25, [(0, True, TH), (1, True, s8), (2, True, Vec(TH))])
+    # logical buffers as table entries (multi-byte elements, narrow size members, 32 / 100 / 200 elements: the element
+    # count and the byte length fall into different size classes)
+    slbs = [x for x in P if x.tid in ('SL1', 'SL3', 'SL17', 'SL18')]
+    TLB = Table('TLB', 26, [(i, True, x) for i, x in enumerate(slbs)])
+    P += [TH2, THN, TLB]
     # version pool of Tables.tla (pool/tables.json, emitted by TLC): every definition reachable within 4 steps
     import json as _json, os as _os
     tj = _os.path.join(_os.path.dirname(_os.path.dirname(_os.path.abspath(__file__))), 'pool', 'tables.json')
